@@ -11,21 +11,6 @@
 (***************************************************************************)
 EXTENDS JudgeCore, Arith
 
-(* Gate maps read from JSON are TLC records, whose field selection is linear in the number of
-   fields; AsFcn copies such a map once into a function (hashed lookup), which keeps the
-   evaluation of circuits with thousands of gates feasible. *)
-AsFcn(rec) == [l \in DOMAIN rec |-> rec[l]]
-
-(* evaluation along a witness order that is checked on the way; G = AsFcn(c.g) *)
-EvalChecked(G, order, cols, all) ==
-  FoldLeft(LAMBDA acc, l :
-     IF ~acc.ok \/ l \notin DOMAIN G THEN [acc EXCEPT !.ok = FALSE]
-     ELSE IF l \in DOMAIN acc.v THEN acc
-     ELSE LET ops == G[l].o IN
-          IF \E j \in DOMAIN ops : ops[j] \notin DOMAIN acc.v THEN [acc EXCEPT !.ok = FALSE]
-          ELSE [acc EXCEPT !.v = (l :> GateSet(G[l].t, [j \in DOMAIN ops |-> acc.v[ops[j]]], all)) @@ acc.v],
-   [ok |-> TRUE, v |-> cols], order)
-
 ARows(c) == IF c.sampled THEN 1 .. c.nrows ELSE AllRows(Len(c.post.i))
 (* columns are attached to input LABELS of the circuit after the call, so that a host whose
    input order was changed by the generator is still compared gate by gate *)
